@@ -263,6 +263,9 @@ type Fields = (Option<u64>, [Option<u64>; 3], Option<(u8, Option<u64>)>, Option<
 /// (or that only one of them accepts)
 fn expected_fields(tag: &str) -> Option<Fields> {
     let s = |a: u64, b: u64, c: u64| [Some(a), Some(b), Some(c)];
+    if let Some(n) = tag.strip_prefix("v0.").and_then(|r| r.strip_suffix(".0")).and_then(|m| m.parse::<u64>().ok()) {
+        return Some((None, s(0, n, 0), None, None, None));
+    }
     Some(match tag {
         "1.0.0-rc.1" => (None, s(1, 0, 0), Some((2, Some(1))), None, None),
         "1.0.0-alpha.1" => (None, s(1, 0, 0), Some((0, Some(1))), None, None),
@@ -333,7 +336,33 @@ fn check_history(h: &History, cx: &mut Cx) -> Res {
     Ok(())
 }
 
+/// repositories with well over a hundred tagged commits, HEAD on an old line
+fn many_tags_history() -> BoxedStrategy<History> {
+    (110u32..170, 0u32..60, 0usize..3, proptest::collection::vec(op_strategy(), 0..4))
+        .prop_map(|(n, back, extra_commits, tail)| {
+            let mut ops: Vec<(Op, bool)> = Vec::new();
+            for i in 0..n {
+                ops.push((Op::Commit { time_skew: 0 }, false));
+                // now and then a commit without a release, or with a non-version marker
+                if i % 17 != 5 {
+                    ops.push((Op::TagNumbered { n: i }, false));
+                }
+            }
+            // an old release line: detach far back (commit index counts from the root), then work there
+            let target = (n.saturating_sub(40 + back)).max(1) as usize;
+            ops.push((Op::Detach { commit: target }, true));
+            ops.push((Op::Branch { name: 0 }, false));
+            for _ in 0..extra_commits {
+                ops.push((Op::Commit { time_skew: 0 }, false));
+            }
+            ops.extend(tail.into_iter().map(|o| (o, false)));
+            History { ops }
+        })
+        .boxed()
+}
+
 pub fn property() -> Property {
+    let many = RandomSub::<History>::new("many-tags", (6, 60), |_| many_tags_history(), check_history).shrink_iters(4);
     let hist = RandomSub::<History>::new(
         "git-histories",
         (500, 8_000),
@@ -352,7 +381,7 @@ pub fn property() -> Property {
             "version fields are compared only for plain X.Y.Z tags (how other tag strings are read is C07-C09)",
             "dirty => bumped_timestamp is the wall clock (bracketed)",
         ],
-        subs: vec![hist.boxed()],
+        subs: vec![hist.boxed(), many.boxed()],
         known_repro: vec![],
     }
 }
